@@ -246,6 +246,7 @@ pub fn run_job<S: Service>(config: &Config, name: &str, job: &Value, tw: &mut Tr
                         "cnt": cnt, "ids": ids, "nf": nf, "nl": nl, "nn": nn}));
         summary.count(a, &res);
         done += 1;
+        tw.flush(); // a later abort of the code under test must not lose what was observed
     }
     if trunc.is_some() {
         summary.truncated += 1;
